@@ -71,6 +71,10 @@ var connOffences = []connOffence{
 	{Kind: "data-idle", Codes: []uint32{cProtocol}, Ops: func(r *RNG) []Op { return []Op{rawOp(FData, 1, 4, 1001)} }},
 	{Kind: "rst-idle", Codes: []uint32{cProtocol}, Ops: func(r *RNG) []Op { return []Op{{Kind: "rst", StreamRef: 1001, Code: 8, Pad: -1, TableSize: -1}} }},
 	{Kind: "wupd-idle", Codes: []uint32{cProtocol}, Ops: func(r *RNG) []Op { return []Op{{Kind: "wupd", StreamRef: 1001, Incr: 10, Pad: -1, TableSize: -1}} }},
+	// graceful path: the streams opened so far are served to the end, then the connection goes
+	{Kind: "headers-lower-id", Codes: []uint32{cProtocol, cStreamClose}, Ops: func(r *RNG) []Op {
+		return []Op{{Kind: "headers", Fields: okHeaders, StreamRef: -2, EndStream: true, Pad: -1, TableSize: -1}}
+	}},
 	{Kind: "hpack-bad-index", Codes: []uint32{cCompression}, OpensStream: true, Ops: func(r *RNG) []Op {
 		return []Op{{Kind: "raw", RawType: FHeaders, RawFlags: 5, RawHex: Pick(r, "ffffff7f", "80"), Pad: -1, TableSize: -1}}
 	}},
@@ -80,9 +84,23 @@ var connOffences = []connOffence{
 	{Kind: "hpack-size-update-too-big", Codes: []uint32{cCompression}, OpensStream: true, Ops: func(r *RNG) []Op {
 		return []Op{{Kind: "raw", RawType: FHeaders, RawFlags: 5, RawHex: "3fe1ff03" + "82878441016" + "1", Pad: -1, TableSize: -1}}
 	}},
+	// a string length of 2^63 and more: eleven octets, still a well-formed integer (RFC 7541 5.1)
+	{Kind: "hpack-huge-string-length", Codes: []uint32{cCompression}, OpensStream: true, Ops: func(r *RNG) []Op {
+		huge := "7f80808080808080808001"
+		return []Op{{Kind: "raw", RawType: FHeaders, RawFlags: 5, RawHex: Pick(r, "8287"+"00"+huge, "8287"+"000161"+huge, "8287"+"40"+"ff80808080808080808001", "8287"+"0f2f"+huge), Pad: -1, TableSize: -1}}
+	}},
 	{Kind: "hpack-size-update-late", Codes: []uint32{cCompression}, OpensStream: true, Ops: func(r *RNG) []Op {
 		return []Op{{Kind: "raw", RawType: FHeaders, RawFlags: 5, RawHex: "8287" + "20" + "84410161", Pad: -1, TableSize: -1}}
 	}},
+}
+
+func offenceByKind(k string) connOffence {
+	for _, o := range connOffences {
+		if o.Kind == k {
+			return o
+		}
+	}
+	panic("no offence " + k)
 }
 
 // GenC10: well-formed traffic, one connection-scoped offence at a seeded position, trailing behaviour of the peer.
@@ -98,6 +116,9 @@ func GenC10(r *RNG) *SrvPlan {
 		p.Lanes = append(p.Lanes, l)
 	}
 	off := connOffences[r.Intn(len(connOffences))]
+	if r.Intn(6) == 0 {
+		off = offenceByKind("headers-lower-id") // the only one with streams left to finish: give it a share of its own
+	}
 	ol := Lane{Name: "offence-" + off.Kind, Offender: off.Kind, After: -1, OpensStream: off.OpensStream, Ops: off.Ops(r)}
 	switch r.Intn(3) {
 	case 0: // concurrently with the requests before it
@@ -108,8 +129,43 @@ func GenC10(r *RNG) *SrvPlan {
 			ol.After = r.Intn(before)
 		}
 	}
+	if off.Kind == "headers-lower-id" {
+		// needs an id that was left out below a stream already opened
+		if before == 0 {
+			p.Lanes = append(p.Lanes, GenRequestLane(r, 0, o))
+			before = 1
+		}
+		p.Lanes[before-1].SkipID = true
+		if ol.After != -3 {
+			ol.After = before - 1
+		}
+		if r.Intn(2) == 0 {
+			// what is left of the promised responses waits for window the peer grants late, and as little as it takes
+			p.Peer.AutoWindow = false
+			p.Peer.DrainGrants = true
+			if r.Intn(2) == 0 {
+				// held by the stream windows
+				p.Peer.InitialWindow = Pick(r, int64(0), 100, 70000)
+				p.Peer.ConnWindowBoost = 1 << 24
+			} else {
+				// held by the connection window alone
+				p.Peer.InitialWindow = 1 << 20
+				p.Peer.ConnWindowBoost = 0
+				k := r.Intn(before)
+				if p.Lanes[k].Resp != nil {
+					p.Lanes[k].Resp.BodyLen = Pick(r, 70000, 100000)
+					p.Lanes[k].Resp.Mode = "buffered"
+				}
+			}
+		}
+	}
 	p.Lanes = append(p.Lanes, ol)
 	offIdx := len(p.Lanes) - 1
+	// the peer may give up on requests it sent before the offence (their handlers may still be running)
+	if before > 0 && r.Intn(3) == 0 {
+		k := r.Intn(before)
+		p.Lanes = append(p.Lanes, Lane{Name: fmt.Sprintf("cancel-%d", k), After: offIdx, Ops: []Op{{Kind: "rst", LaneRef: k + 1, Code: 8, Pad: -1, TableSize: -1}}})
+	}
 	// trailing behaviour
 	trail := Pick(r, "keep-sending", "keep-sending", "silent", "stall", "disconnect")
 	switch trail {
@@ -269,6 +325,11 @@ func c10Rules(w *SrvWorld, rep *LifeReport, mk func(rule, sig, d string) *Violat
 		}
 	}
 	committed := off != nil && off.sentAll && len(w.c2s.Inflight) == 0 && !w.offenceCut
+	if committed && off.lane.Offender == "headers-lower-id" && w.plan.Trail == "stall" {
+		// after this offence the server finishes the streams it has promised before it goes ("once the streams it
+		// promised have finished"); a peer that does not read keeps their responses from ever finishing
+		committed = false
+	}
 	if committed || w.plan.Trail == "idle" {
 		if rep.StayedChecked && !rep.ReturnedWhilePeerStays {
 			offKind := "none"
